@@ -2,3 +2,7 @@
 pub mod notes;
 pub mod hash;
 pub mod symtab;
+pub mod symver;
+pub mod elf;
+pub mod mutate;
+pub mod object;
